@@ -223,13 +223,21 @@ def _stream_goals(sym, s, starts, lens):
 
 
 # ------------------------------------------------------------------------------------------------ router
-def _take(router, fname, into):
-    """One receivePacket call of a consumer of `fname`; a call that would block takes nothing."""
+def _take(router, fname, into, timed=False):
+    """One receivePacket call of a consumer of `fname`; a call that would block takes nothing.  timed: the consumer polls with
+    a timeout (as the CRTP drivers do) and, on an empty queue, the timeout runs out (queue.Empty)."""
+    import queue as _q
     try:
-        into.append(router.receivePacket(CPXFunction[fname], timeout=None))
+        E.SteppedQueue.expire = timed
+        into.append(router.receivePacket(CPXFunction[fname], timeout=0.1 if timed else None))
         return True
     except Yield:
         return False
+    except _q.Empty:
+        assert timed
+        return False
+    finally:
+        E.SteppedQueue.expire = False
 
 
 def h_router(sym):
@@ -248,6 +256,7 @@ def h_router(sym):
     take_at = sym.int('take_at', 0, N) if late else N      # an extra consumer call for REG[0] after arrival #take_at
     # the router task is stepped by re-entering run(), which forgets its locals: frames that arrive back to back (no step
     # between them) are handled inside one activation of the loop, locals included
+    timed = {f: (True if (sym.B.get('polls') and sym.bool(f'timed_{f}')) else False) for f in REG}
     burst = [True if (sym.B.get('bursts') and i < N - 1 and sym.bool(f'burst{i}')) else False for i in range(N)]
     sym.apply_known()
     got = {f: [] for f in REG}
@@ -255,8 +264,10 @@ def h_router(sym):
     for i in range(N + 1):
         for f in REG:
             if f not in registered and regat[f] == i:
-                assert not _take(r, f, got[f]), 'a packet was waiting in a queue that did not exist'
+                assert not _take(r, f, got[f], timed[f]), 'a packet was waiting in a queue that did not exist'
                 registered.add(f)
+                if timed[f]:
+                    sym.goal('poll-timed-out-before-arrival')
         if i == N:
             break
         sym.assume(any(fv[i] == a for a in allowed))
@@ -267,7 +278,7 @@ def h_router(sym):
         assert step(r) == 'yield', 'router thread ended'
         assert s.pending() == 0
         if take_at == i and REG[0] in registered:
-            if _take(r, REG[0], got[REG[0]]):
+            if _take(r, REG[0], got[REG[0]], timed[REG[0]]):
                 sym.goal('taken-between-arrivals')
     for f in REG:
         while _take(r, f, got[f]):
@@ -532,7 +543,14 @@ def h_serial(sym):
         assert step(d._thread) == 'yield'
         # ---- host -> Crazyflie
         want = []
+        objs = []
         for i in range(NTX):
+            if i > 0 and sym.B.get('resend') and sym.choice(f'again{i}', 2) == 1:
+                # the application sends the SAME packet object once more (a keep-alive / setpoint loop does that)
+                d.send_packet(objs[-1])
+                want.append(want[-1])
+                sym.goal('same-packet-object-sent-again')
+                continue
             if sym.B['symbolic_byte'] == 'last':
                 p_, c_ = 5 + i, 3 - i
             else:
@@ -544,6 +562,8 @@ def h_serial(sym):
             pk.data = pl
             d.send_packet(pk)
             want.append((p_, c_, pl))
+            objs.append(pk)
+            assert pk.port == p_ and pk.channel == c_ and list(pk.data) == pl, 'send_packet modified the caller\'s packet'
         # ---- Crazyflie -> host
         hdr = [sym.int(f'hdr{i}', 0, 255) if sym.B['symbolic_byte'] == 'header' else 0x5D + 0x11 * i for i in range(NRX)]
         lastbit = [(i + 1) % 2 for i in range(NRX)]
@@ -628,6 +648,12 @@ HARNESSES = [
             quick=dict(n=3, funcs=('CONSOLE', 'CRTP', 'APP'), receivers=('CRTP', 'APP'), late=('CRTP',)),
             thorough=dict(n=3, funcs=('CONSOLE', 'CRTP', 'APP'), receivers=('CRTP', 'APP'), late=('CRTP', 'APP')),
             timeout=(280, 1500), goals=RG + ('taken-between-arrivals',)),
+    Harness('router[timed polls]', h_router,
+            quick=dict(n=2, funcs=('CRTP', 'APP'), receivers=('CRTP', 'APP'), late=('CRTP',), polls=True),
+            thorough=dict(n=3, funcs=('CONSOLE', 'CRTP', 'APP'), receivers=('CRTP', 'APP'), late=('CRTP', 'APP'), polls=True),
+            timeout=(280, 1500), goals=('poll-timed-out-before-arrival', 'taken-between-arrivals', 'fifo-two-same-function'),
+            note='receivers poll with a timeout (as the CRTP drivers do); a poll that runs out on an empty queue must not lose the '
+                 'packets that arrive before the next poll'),
     Harness('tunnel_tx', h_tunnel_tx, quick=dict(n=2, maxlen=4), thorough=dict(n=2, maxlen=7), timeout=(280, 1500),
             goals=('sent', 'with-payload')),
     Harness('tunnel_tx[two senders]', h_tunnel_tx_two_senders, goals=('both-frames-intact', 'switched-inside-first-sender'), timeout=(280, 900),
@@ -640,6 +666,8 @@ HARNESSES = [
     Harness('serial[header byte]', h_serial, quick=dict(ntx=2, nrx=2, maxlen=3, symbolic_byte='header'),
             thorough=dict(ntx=2, nrx=2, maxlen=4, symbolic_byte='header', cts_first=True), timeout=(280, 1500),
             goals=('done', 'waited-for-cts')),
+    Harness('serial[same packet twice]', h_serial, quick=dict(ntx=3, nrx=1, maxlen=2, symbolic_byte='last', resend=True),
+            timeout=(280, 900), goals=('done', 'same-packet-object-sent-again')),
     Harness('serial[payload byte]', h_serial, quick=dict(ntx=2, nrx=2, maxlen=3, symbolic_byte='last'),
             thorough=dict(ntx=2, nrx=3, maxlen=8, symbolic_byte='last', cts_first=True), timeout=(280, 1500),
             goals=('done', 'waited-for-cts')),
